@@ -18,7 +18,7 @@
 (* C06 Confined / refusals, C07 DedupExact + UploadOnlyIfAbsent,           *)
 (* C08 DeleteComplete / CleanExact / Confined.                             *)
 (***************************************************************************)
-EXTENDS Naturals, FiniteSets, Sequences, TLC
+EXTENDS Naturals, FiniteSets, Sequences, TLC, RepoProps
 
 CONSTANTS KeyGraph,   \* "plain" | "same" | "shared" | "indep" | "mixed"
           Procs,      \* client processes
@@ -56,11 +56,11 @@ ChunkName(f, c) == <<"c", f, c>>
 SnapName(s) == <<"s", s>>
 
 Listed == {s \in 1..nsnap : SnapName(s) \in objs}
+ChunkSet == {<<o[2], o[3]>> : o \in {x \in objs : x[1] = "c"}}   \* projection used by RepoProps
 Visible(u) == {s \in Listed : body[s].fam = FamOf(u)}          \* ownership tag verifies
 Readable(u) == {s \in Visible(u) : body[s].ukey = UKeyOf(u)}   \* private data decrypts
 Tables(S) == UNION {body[s].table : s \in S}
 ChunksOf(f) == {c \in Cids : ChunkName(f, c) \in objs}
-ListedOf(f) == {s \in Listed : body[s].fam = f}
 
 AllIdle == \A p \in Procs : op[p].kind = "idle"
 NoDestructive == \A p \in Procs : op[p].kind \notin {"del", "clean"}
@@ -229,18 +229,17 @@ TypeOK == /\ \A o \in objs : (o[1] = "c" /\ o[2] \in Fams /\ o[3] \in Cids) \/ (
           /\ DOMAIN body = 1..nsnap
 
 \* C02 / C03: every listed snapshot is complete - in every state, mid-command and post-crash included
-Safety == \A s \in Listed : \A c \in body[s].table : ChunkName(body[s].fam, c) \in objs
+Safety == SafetyOf(ChunkSet, {}, Listed, body)
 
 Finishing(p) == op[p].kind \in {"del", "clean"} /\ ~op[p].failed /\ op'[p].kind = "idle" /\ faults' = faults
 
 \* C08: when clean completes, the caller's family holds exactly the referenced chunks
 CleanExact == [][\A p \in Procs, f \in Fams : (Finishing(p) /\ op[p].kind = "clean" /\ f = FamOf(op[p].u)) =>
-                   ChunksOf(f)' = Tables(ListedOf(f))']_vars
+                   CleanExactOf(ChunkSet', Listed', body', f)]_vars
 
 \* C08: when delete completes, chunks referenced only by the deleted snapshots are gone
 DeleteComplete == [][\A p \in Procs, f \in Fams : (Finishing(p) /\ op[p].kind = "del" /\ f = FamOf(op[p].u)) =>
-                   \A c \in Tables(op[p].D) :
-                      (c \notin Tables(ListedOf(f))') => ChunkName(f, c) \notin objs']_vars
+                   DeleteCompleteOf(ChunkSet', Listed', body', f, op[p].D)]_vars
 
 \* C06 / C08: whatever disappears belongs to the family of a user running a destructive command,
 \* and snapshot objects only disappear if that user can read them
@@ -251,7 +250,7 @@ Confined == [][\A o \in objs \ objs' : \E p \in Procs :
 
 \* C07: in a state with no command in progress and no interrupted command since the family's last
 \* clean, the chunk objects of a family are precisely the distinct chunks referenced
-DedupExact == \A f \in Fams : (AllIdle /\ ~dirty[f]) => ChunksOf(f) = Tables(ListedOf(f))
+DedupExact == \A f \in Fams : (AllIdle /\ ~dirty[f]) => DedupExactOf(ChunkSet, Listed, body, f)
 
 \* C07: no payload is transferred for a chunk the family already held when the snapshot began
 \* ("taking a snapshot of unchanged data transfers no chunk payload")
